@@ -205,15 +205,18 @@ Definition collect_predecessors (pv : list evd) : refs_t :=
   create_references
     (fold_left (fun g e => group_add pair_eqb (e_study e, e_series e) (e_uid e, e_cls e) g) pv []).
 
+(* a verification detail (verifying_observer_name / verifying_organization) counts as given when
+   the argument is neither None nor the empty string; the harness numbers the empty string 0 *)
+Definition given (o : option Z) : bool :=
+  match o with Some n => negb (n =? 0) | None => false end.
+
 Definition sr_base_init (cls : Z) (a : sr_args) : res doc :=
   match a_evidence a with
   | [] => Err "ValueError"
   | _ =>
     if negb (a_ts_ok a) then Err "ValueError"
-    else if a_verified a && (match a_observer a with None => true | Some _ => false end)
-    then Err "ValueError"
-    else if a_verified a && (match a_org a with None => true | Some _ => false end)
-    then Err "ValueError"
+    else if a_verified a && negb (given (a_observer a)) then Err "ValueError"
+    else if a_verified a && negb (given (a_org a)) then Err "ValueError"
     else
       bind (match a_content a with
             | CDataset it => Ok it
